@@ -79,6 +79,16 @@ def alt_variants(mm, t, coords):
         opt = [pn for pn, p in mm.obj_props(rt)[0].items() if p.get("optional")]
         for pn in opt[:16]:
             out.append(("only:" + pn, TGen(mm, rng_for(*coords, "only", pn), maxdepth=2, p_opt=0.0).gen(rt, 0, [("prop", pn)])))
+        # ... and every pair of optional properties (discriminators that combine two probes)
+        import itertools as _it
+
+        for a, b in list(_it.combinations(opt[:9], 2)):
+            t1 = TGen(mm, rng_for(*coords, "pair", a, b), maxdepth=2, p_opt=0.0).gen(rt, 0, [("prop", a)])
+            t2 = TGen(mm, rng_for(*coords, "pair2", a, b), maxdepth=2, p_opt=0.0).gen(rt, 0, [("prop", b)])
+            if t1[0] == "obj" and t2[0] == "obj" and b in t2[2]:
+                kids = dict(t1[2])
+                kids[b] = t2[2][b]
+                out.append(("pair:%s+%s" % (a, b), ("obj", t1[1], kids)))
         return out
     for x in range(2):
         out.append(("v%d" % x, TGen(mm, rng_for(*coords, "v", x), maxdepth=3, p_opt=0.5).gen(rt)))
